@@ -91,6 +91,64 @@ template<class G> struct Pred2 {
       o.scalar(S((int)nonfinite)); o.scalar(S(0));
       return true;
     }
+    if(op=="P15"){   // C15: A, B, g, ta, tb, [t]
+      G A=mkG(c.args[0]), B=mkG(c.args[1]), g=mkG(c.args[2]); T ta=mkT(c.args[3]), tb=mkT(c.args[4]); S t=ScalarIO<S>::parse(c.args[5][0]);
+      using manif::INTERP_METHOD;
+      const INTERP_METHOD M[3] = {INTERP_METHOD::SLERP, INTERP_METHOD::CUBIC, INTERP_METHOD::CNSMOOTH};
+      for(int k=0;k<3;k++){
+        o.mat(manif::interpolate(A,B,S(0),M[k],ta,tb).transform()); o.mat(A.transform());
+        o.mat(manif::interpolate(A,B,S(1),M[k],ta,tb).transform()); o.mat(B.transform()); }
+      for(unsigned m: {1u,2u,4u}){
+        o.mat(manif::interpolate_smooth(A,B,S(0),m,ta,tb).transform()); o.mat(A.transform());
+        o.mat(manif::interpolate_smooth(A,B,S(1),m,ta,tb).transform()); o.mat(B.transform()); }
+      G mt = manif::interpolate(A,B,t,INTERP_METHOD::SLERP);
+      T rel = A.inverse().compose(B).log();
+      { T st = rel*t; o.mat(mt.coeffs()); o.mat(A.compose(st.exp()).coeffs()); }                         // the geodesic, as coded
+      { T st = rel*t; o.mat(A.inverse().compose(mt).log().coeffs()); o.mat(st.coeffs()); }                // log(A^-1 m(t)) = t log(A^-1 B)
+      o.mat(manif::interpolate(g.compose(A),g.compose(B),t,INTERP_METHOD::SLERP).transform()); o.mat(g.compose(mt).transform());   // left-equivariance
+      { int thrown=0, tried=0; S out[2] = { S(0)-S(1)/S(1073741824), S(1)+S(1)/S(1073741824) };
+        for(int k=0;k<3;k++) for(int j=0;j<2;j++){ tried++; try{ (void)manif::interpolate(A,B,out[j],M[k],ta,tb); } catch(const manif::runtime_error&){ thrown++; } }
+        o.scalar(S(thrown)); o.scalar(S(tried)); }
+      { int bad=0; for(std::size_t m=1;m<=4;m++){ if(!(manif::smoothing_phi(S(0),m)==S(0))) bad++; if(!(manif::smoothing_phi(S(1),m)==S(1))) bad++;
+          S prev = S(0); for(int i=1;i<=64;i++){ S v = manif::smoothing_phi(S(i)/S(64),m); if(v<prev) bad++; prev=v; } }
+        o.scalar(S(bad)); o.scalar(S(0)); }
+      { int thrown=0, tried=0; for(std::size_t m: {std::size_t(0),std::size_t(5),std::size_t(6),std::size_t(100)}){ tried++; try{ (void)manif::smoothing_phi(t,m); } catch(const std::logic_error&){ thrown++; } }
+        o.scalar(S(thrown)); o.scalar(S(tried)); }
+      return true;
+    }
+    if(op=="P17" || op=="P17D"){   // C17: args[0] ignored, args[1..] the trajectory; iarg = (degree*1000 + k)*2 + closed
+      long code=std::stol(c.iarg); bool closed = code%2; code/=2; unsigned k = code%1000, d = code/1000;
+      std::vector<G> traj; for(size_t i=1;i<c.args.size();i++) traj.push_back(mkG(c.args[i]));
+      const long N = (long)traj.size();
+      if(N<3 || (long)d>N || k==0){          // must raise
+        int thrown=0; try{ (void)manif::decasteljau(traj,d,k,closed); } catch(const manif::runtime_error&){ thrown=1; }
+        o.scalar(S(thrown)); o.scalar(S(1)); return true; }
+      std::vector<G> curve = manif::decasteljau(traj, d, k, closed);
+      // the windows the property describes, computed independently
+      std::vector<std::vector<long>> W; long nseg = (N-(long)d)/((long)d-1) + 1;
+      for(long s=0;s<nseg;s++){ std::vector<long> w; for(long j=0;j<(long)d;j++) w.push_back(s*((long)d-1)+j); W.push_back(w); }
+      if(closed){ std::vector<long> w; long last=nseg*((long)d-1); for(long p=last;p<N;p++) w.push_back(p); for(long p=0;(long)w.size()<(long)d;p++) w.push_back(p); W.push_back(w); }
+      const long segk = (d==2) ? k : k*d;
+      o.scalar(S((int)curve.size())); o.scalar(S((int)(W.size()*segk)));
+      bool shape = (long)curve.size()==(long)W.size()*segk;
+      // last curve point of every window = its last control point; pieces join
+      int bad_end=0, bad_geo=0; S worst=S(0);
+      if(shape){
+        for(size_t s=0;s<W.size();s++){
+          const G& e = curve[(s+1)*segk-1]; const G& cp = traj[W[s].back()];
+          Dyn D = e.transform()-cp.transform(); S m = S(0); for(int i=0;i<D.rows();i++) for(int j=0;j<D.cols();j++){ S a=absS(D(i,j)); if(m<a) m=a; }
+          S sc = S(1); { Dyn Tm = cp.transform(); for(int i=0;i<Tm.rows();i++) for(int j=0;j<Tm.cols();j++){ S a=absS(Tm(i,j)); if(sc<a) sc=a; } }
+          if(!(m <= S(1e-6)*sc*sc)) bad_end++; if(worst<m) worst=m; }
+        if(d==2) for(size_t s=0;s<W.size();s++) for(long t=1;t<=segk;t++){
+          S u = S(double(t)/double(segk)); G ref = manif::interpolate(traj[W[s][0]], traj[W[s][1]], u, manif::INTERP_METHOD::SLERP);
+          Dyn D = curve[s*segk+t-1].transform()-ref.transform(); S m=S(0); for(int i=0;i<D.rows();i++) for(int j=0;j<D.cols();j++){ S a=absS(D(i,j)); if(m<a) m=a; }
+          S sc = S(1); { Dyn Tm = ref.transform(); for(int i=0;i<Tm.rows();i++) for(int j=0;j<Tm.cols();j++){ S a=absS(Tm(i,j)); if(sc<a) sc=a; } }
+          if(!(m <= S(1e-6)*sc*sc)) bad_geo++; }
+      }
+      o.scalar(S(bad_end)); o.scalar(S(0));
+      o.scalar(S(bad_geo)); o.scalar(S(0));
+      return true;
+    }
     return false;
   }
 };
